@@ -34,7 +34,7 @@
      imm_handler limit ours h tl .. := the two immediate-assignment handlers: guards, copy into the zeroed cd_now if the request
                             reference is ours, then gsm48_rr_dl_est -> gsm48_rr_render_ma (h = hopping channel description). *)
 From Coq Require Import ZArith List.
-From OBB Require Import Base.Range Gen.MobAllocConst Gen.MobAllocSi4Const Model.MobAlloc Model.MobAllocSi4 Model.MobAllocHist Model.MobAllocAss Model.MobAllocCd Proofs.MobAllocP Proofs.MobAllocSi4P Proofs.MobAllocHistP Proofs.MobAllocAssP Proofs.MobAllocCdP.
+From OBB Require Import Base.Range Gen.MobAllocConst Gen.MobAllocSi4Const Model.MobAlloc Model.MobAllocSi4 Model.MobAllocHist Model.MobAllocAss Model.MobAllocCd Model.MobAllocBand Proofs.MobAllocP Proofs.MobAllocSi4P Proofs.MobAllocHistP Proofs.MobAllocAssP Proofs.MobAllocCdP Proofs.MobAllocBandP.
 Import ListNotations.
 Open Scope Z_scope.
 
@@ -431,6 +431,53 @@ Theorem c20_render_cd_in_bounds : forall lv cdlv other freq ma ma_len,
   exists rc s, render_ma_cd lv cdlv other freq ma ma_len = Ok rc s.
 Proof. exact render_cd_safe. Qed.
 Print Assumptions c20_render_cd_in_bounds.
+
+(* ==================================================================== the final loop of gsm48_rr_render_ma: band conversion, support check *)
+(* render_full pcs fm lv cdlv other freq ma ma_len (Model/MobAllocBand.v) := render_ma_cd, then, if that returned 0, the loop over
+   ma[0 .. ma_len-1]; pcs = gsm_refer_pcs(cs->arfcn, s) (the serving cell refers to PCS 1900), fm = set->freq_map (166 octets).
+     conv pcs a      := a + 32768 (ARFCN_PCS = 0x8000) if pcs and 512 <= a <= 810, else a
+     bidx pcs a      := a - 512 + 1024 if pcs and 512 <= a <= 810, else a                       (arfcn2index of the converted value)
+     supported fm pcs a := bit (bidx mod 8) of fm[bidx / 8] is set
+     loop_spec fm pcs l := (0, all of l converted) if every channel is supported, else (8, l converted up to and including the first
+                           unsupported channel, the rest as decoded)      -- 8 = GSM48_RR_CAUSE_FREQ_NOT_IMPL as compiled *)
+
+Theorem c20_render_band_constants : c_ARFCN_PCS = 32768 /\ c_ARFCN_FLAG_MASK = 61440 /\ c_CAUSE_FREQ_NOT_IMPL = 8 /\ c_FREQ_MAP_SIZE = 166.
+Proof. exact band_constants. Qed.
+Print Assumptions c20_render_band_constants.
+
+(* for EVERY decoded list sel (channel numbers 0..1023, any length that the branch left in ma_len), every freq_map and both kinds of
+   serving cell: no access outside ma[] / freq_map[]; the function returns 0 iff every channel is supported per the rule above, else 8;
+   ma_len is unchanged and the octets of ma[] behind the list are untouched *)
+Theorem c20_render_band_loop : forall pcs fm lv cdlv other freq ma ma_len fr sel rest,
+  Zlength fm = 166 -> Forall (fun a => 0 <= a < 1024) sel ->
+  render_ma_cd lv cdlv other freq ma ma_len = Ok 0 (mkst fr (sel ++ rest) (Zlength sel)) ->
+  render_full pcs fm lv cdlv other freq ma ma_len =
+    Ok (if forallb (supported fm pcs) sel then 0 else 8) (mkst fr (snd (loop_spec fm pcs sel) ++ rest) (Zlength sel)).
+Proof. exact render_full_loop. Qed.
+Print Assumptions c20_render_band_loop.
+
+(* the channel NUMBERS (low 10 bits) handed to L1 are exactly the decoded list - nothing added, dropped, reordered or renumbered,
+   whether or not the function refuses *)
+Theorem c20_render_band_numbers : forall fm pcs sel, Forall (fun a => 0 <= a < 1024) sel ->
+  map (fun x => Z.land x 1023) (snd (loop_spec fm pcs sel)) = sel.
+Proof. exact loop_numbers. Qed.
+Print Assumptions c20_render_band_numbers.
+
+(* accepted: every entry is the converted channel; an entry carries ARFCN_PCS (bit 15) iff the cell is PCS and 512 <= arfcn <= 810 *)
+Theorem c20_render_band_accepted : forall fm pcs sel, forallb (supported fm pcs) sel = true ->
+  snd (loop_spec fm pcs sel) = map (conv pcs) sel.
+Proof. exact loop_all. Qed.
+Print Assumptions c20_render_band_accepted.
+Theorem c20_render_band_pcs_flag : forall pcs a, 0 <= a < 1024 ->
+  Z.testbit (conv pcs a) 15 = andb pcs (andb (512 <=? a) (a <=? 810)).
+Proof. exact conv_flag. Qed.
+Print Assumptions c20_render_band_pcs_flag.
+
+(* an error of the decode branch (0x65 empty list, 1 abnormal) is returned as it is, the loop does not run *)
+Theorem c20_render_band_pass_through : forall pcs fm lv cdlv other freq ma ma_len rc s, rc <> 0 ->
+  render_ma_cd lv cdlv other freq ma ma_len = Ok rc s -> render_full pcs fm lv cdlv other freq ma ma_len = Ok rc s.
+Proof. exact render_full_pass. Qed.
+Print Assumptions c20_render_band_pass_through.
 
 From OBB Require Import Gen.TrxIfConst Model.Trxd Model.TrxIf Proofs.TrxIfSetfhP.
 (* ---- the consumer at the far end: trxcon's SETFH composer (trx_if_cmd_setfh in trx_if.c, model Model/TrxIf.v) ----
